@@ -140,7 +140,7 @@ func StatEntry(p, rel string, withData bool) (model.Entry, error) {
 		return model.Entry{}, fmt.Errorf("lstat %s: %w", p, err)
 	}
 	e := model.Entry{Path: rel, Perm: uint32(st.Mode) & 07777, Uid: st.Uid, Gid: st.Gid,
-		Mtime: st.Mtim.Sec*1e9 + st.Mtim.Nsec, Ino: st.Ino, Nlink: uint64(st.Nlink)}
+		Mtime: st.Mtim.Sec*1e9 + st.Mtim.Nsec, Ino: st.Ino, Nlink: uint64(st.Nlink), Ctime: st.Ctim.Sec*1e9 + st.Ctim.Nsec}
 	switch st.Mode & unix.S_IFMT {
 	case unix.S_IFDIR:
 		e.Type = "dir"
